@@ -686,7 +686,14 @@ def remove_redundant_casts_ir(graph: ir.Graph) -> None:
             if src_dtype != target_code:
                 # Try folding consecutive Cast→Cast when net dtype is identity.
                 out_val = outs[0]
-                consumers = _consumer_nodes(nodes, out_val)
+                # Direct consumers only: a use inside a nested body keeps the
+                # first Cast alive (intermediate_is_observed) but does not block
+                # folding the round trip for the direct consumer.
+                consumers = [
+                    c
+                    for c in _consumer_nodes(nodes, out_val)
+                    if any(iv is out_val for iv in _node_inputs(c))
+                ]
                 if len(consumers) == 1:
                     next_node = consumers[0]
                     if _is_standard_onnx_node(next_node, "Cast"):
